@@ -593,6 +593,12 @@ func (f *Frame) envAtWith(b *ssa.BasicBlock, st *State) *Env {
 		env.vars[n] = v
 		env.vars[n+"0"] = v
 	}
+	for i, fv := range f.fn.FreeVars {
+		if v, ok := f.vals[fv]; ok {
+			bindFreeVar(f.tr, env, fv, v)
+		}
+		_ = i
+	}
 	// named allocs (address-taken locals): bind to their current content
 	for _, ai := range f.allocL {
 		if ai.a.Comment == "" || ai.ref == "" {
@@ -630,3 +636,46 @@ func (f *Frame) envAtWith(b *ssa.BasicBlock, st *State) *Env {
 }
 
 var _ = constant.MakeBool
+
+// conjuncts flattens top-level && (expanding zero-argument and applied defines) so that each conjunct becomes its own
+// site and a failure names the part that failed.
+func (env *Env) conjuncts(e *Expr) []*Expr {
+	if e.K == EBinary && e.Op == "&&" {
+		return append(env.conjuncts(e.A), env.conjuncts(e.Bx)...)
+	}
+	if e.K == ECall && e.A == nil {
+		if d := env.f.tr.eng.db.Defines[e.Name]; d != nil && len(d.Params) == len(e.Args) && d.Body.K == EBinary && d.Body.Op == "&&" {
+			var out []*Expr
+			for _, cj := range env.conjuncts(d.Body) {
+				out = append(out, substExpr(cj, d.Params, e.Args))
+			}
+			return out
+		}
+	}
+	return []*Expr{e}
+}
+
+func substExpr(e *Expr, ps []QVar, args []*Expr) *Expr {
+	if e == nil {
+		return nil
+	}
+	if e.K == EIdent {
+		for i, p := range ps {
+			if p.Name == e.Name {
+				return args[i]
+			}
+		}
+		return e
+	}
+	n := *e
+	n.A = substExpr(e.A, ps, args)
+	n.Bx = substExpr(e.Bx, ps, args)
+	n.C = substExpr(e.C, ps, args)
+	if e.Args != nil {
+		n.Args = make([]*Expr, len(e.Args))
+		for i, a := range e.Args {
+			n.Args[i] = substExpr(a, ps, args)
+		}
+	}
+	return &n
+}
